@@ -166,7 +166,12 @@ def gen_workflow(rng, profile):
         fields['input'] = tmap(inm)
         if earlier and rng.random() < profile.get('p_waitfor', 0.2):
             j = rng.choice(earlier)
-            fields['wait_for'] = ref(rng.choice(['steps.%s.outputs' % j, 'steps.%s.outputs.success' % j, 'steps.%s.starting.started' % j]))
+            wchoices = ['steps.%s.outputs' % j, 'steps.%s.outputs.success' % j, 'steps.%s.starting.started' % j]
+            if profile.get('engine_outputs'):
+                # wait_for takes a value of any type: every engine-generated output object must be acceptable there
+                wchoices += ['steps.%s.crashed.error' % j, 'steps.%s.deploy_failed.error' % j, 'steps.%s.closed.result' % j,
+                             'steps.%s.disabled.output' % j, 'steps.%s.enabling.resolved' % j]
+            fields['wait_for'] = ref(rng.choice(wchoices))
         r = rng.random()
         if r < profile.get('p_enabled', 0.25):
             k = rng.choice(['lit', 'flag', 'dep'] if earlier else ['lit', 'flag'])
